@@ -15,7 +15,7 @@ META = {
         "site on the automata of _save_to_buffer, _load_from_buffer, _initialize_data_in_buffer and _flush (both strategies, dict and list classes, force on/off): (a) every insert / "
         "contents rewrite / delete / modified-flag flip of a buffer entry is paired on all paths with a counter update of the matching sign and operand, and every counter update is paired "
         "with such a change; (b) after every increase a capacity test whose true arm force-flushes follows before the operation returns, and lowering the capacity flushes; (d) the capacity "
-        "stack of the backend-wide context is popped on every exit (shared with C07.d). Races on the counter are C13."
+        "stack of the backend-wide context is popped on every exit and an __enter__ that raises leaves neither the counter incremented nor a pushed element (shared with C07.d); (g) tests that decide whether a capacity is installed / restored compare with None (0 is a capacity). Races on the counter are C13."
     ),
     "rule": "obligation = one weight-changing site or one counter update in one implementation x strategy x class kind x force flag",
     "trusted_base": ["engine value provenance and CFG", "weight function of each strategy as stated in the property"],
